@@ -7,7 +7,7 @@
                  token soup up to length SOUPLEN, and (SKELDIAG = 1) every skeleton with all holes filled
                  by the same token;  INIT InitX  NEXT NextX
    INVARIANT Emit prints one CASE line per input.
-   Parameters (environment): CORPUS, MAXSOLID, SOUPLEN, ESOUPLEN (expression soup), SKELDIAG, TRUNCPCT (share of prefixes among
+   Parameters (environment): CORPUS, MAXSOLID, SOUPLEN, ESOUPLEN (expression soup), LSOUPLEN (declaration soup), ARGSLEN (argument lists), SKELDIAG, TRUNCPCT (share of prefixes among
    the random mutants, in percent). *)
 EXTENDS Pipeline
 VARIABLE st
@@ -21,9 +21,11 @@ CaseOf(s) == CASE s.g = "seed" -> SeedCase(s.p)
                [] s.g = "soup" -> SoupCase(s.ix)
                [] s.g = "skel" -> SkelCase(s.p, s.ix)
                [] s.g = "esoup" -> ESoupCase(s.ix)
+               [] s.g = "lsoup" -> LSoupCase(s.ix)
+               [] s.g = "args" -> ArgsCase(s.p, s.ix)
                [] s.g = "typing" -> TypingCase(s.p, s.d.a)
 
-Emit == st.g \in {"seed", "orig", "mut", "soup", "skel", "esoup", "typing"} => PrintT(<<"CASE", ToJson(CaseOf(st))>>)
+Emit == st.g \in {"seed", "orig", "mut", "soup", "skel", "esoup", "lsoup", "args", "typing"} => PrintT(<<"CASE", ToJson(CaseOf(st))>>)
 
 (* ---- random ---- *)
 TruncPct == Nat10(IOEnv.TRUNCPCT)
@@ -41,6 +43,8 @@ MaxSolid == Nat10(IOEnv.MAXSOLID)
 SoupLen == Nat10(IOEnv.SOUPLEN)
 SkelDiag == Nat10(IOEnv.SKELDIAG)
 ESoupLen == Nat10(IOEnv.ESOUPLEN)
+LSoupLen == Nat10(IOEnv.LSOUPLEN)
+ArgsLen == Nat10(IOEnv.ARGSLEN)
 SmallProgs == {p \in 1..NProg : Corpus[p].nsolid <= MaxSolid}
 Tuples(n) == [1..n -> TokIdx]
 InitX == st \in
@@ -49,6 +53,8 @@ InitX == st \in
    UNION { { St("mut", p, d, <<>>) : d \in AllDescs(LexOf(p), SolidOf(p)) } : p \in SmallProgs } \cup
    UNION { { St("soup", 0, NoD, ix) : ix \in Tuples(n) } : n \in 1..SoupLen } \cup
    UNION { { St("esoup", 0, NoD, ix) : ix \in [1..n -> ExprIdx] } : n \in 1..ESoupLen } \cup
+   UNION { { St("lsoup", 0, NoD, ix) : ix \in [1..n -> LineIdx] } : n \in 1..LSoupLen } \cup
+   UNION { { St("args", c, NoD, ix) : c \in 1..2, ix \in [1..n -> ArgIdx] } : n \in 1..ArgsLen } \cup
    UNION { { St("typing", k, [op |-> "typing", i |-> k, a |-> n], <<>>) : n \in 0..Len(TypingTexts[k]) } : k \in 1..Len(TypingTexts) } \cup
    { St("skel", k, NoD, [j \in 1..NHoles(Skeletons[k]) |-> a]) : k \in 1..(SkelDiag * Len(Skeletons)), a \in TokIdx }
 NextX == UNCHANGED st
